@@ -64,12 +64,7 @@ func (r Int16) MAX(a, b Int16) Scalar {
 }
 /* -------------------------------------------------------------------------- */
 func (c Int16) ABS(a Int16) Scalar {
-  if c.Sign() == -1 {
-    c.NEG(a)
-  } else {
-    c.SET(a)
-  }
-  return c
+  return c.Abs(a)
 }
 /* -------------------------------------------------------------------------- */
 func (c Int16) NEG(a Int16) Int16 {
